@@ -185,7 +185,7 @@ def r19b(ctx):
         some_edges = []
         for t in tk:
             ve = a.variant_edges(t, 'core::option::Option<')
-            some_edges += ve.get('1', [])
+            some_edges += a.some_edges(ve)
         ctx.check(bool(some_edges) and a.cfg.must_pass(r, via_edges=some_edges), 'R19b', fn, 'take', a.loc(r), 'the rename happens only on the Some edge of self.writer.take() (a second close is a no-op)')
         # the flushed writer is the taken one and is dropped (file closed) before the rename
         dr = [d for d in a.calls('core::mem::drop') if tk and a.rooted_at(a.arg(d, 0), tk[0])]
